@@ -1,4 +1,5 @@
 import MD.Proofs.DecompLemmas
+import Mathlib.Tactic.NormNum
 
 /-! # C07 — invariances of the score decomposition
 
@@ -88,4 +89,237 @@ theorem C07_mean_level_irrelevant (sf : SF K) (l l' : Option K) (ys : List K)
   exact congrArg (fun t => dec_shape ys cols w >>= fun _ => t)
     (dec_stages_mean_level sf _ _ ys cols w)
 
+/-! ## 2. Row order -/
+
+/-- **The decomposition does not change when the rows of the data set are permuted** — every score
+object (library scores and `ElementaryScore`), every functional, with or without weights, and
+including the *domain repair* that is applied when `min y` is not an admissible prediction.
+`fit_rows X y w` is the list of rows `(X[i], y[i], w[i])` (`w[i] = 1` without weights); the two
+data sets are related by an arbitrary permutation of these rows.  Both calls are assumed to succeed
+(the two probes `y[0] == marginal == y[-1]` and `scoring_function(y[:1], min y, w[:1])` look at
+particular rows, so *which* error a bad data set raises may depend on the order).
+
+Ingredients: the fitted model is the same (`C11_row_order_free`); the `yminAllowed` flag is the
+same because the pairs a score accepts form a rectangle (`dec_sfOK_rect`, `dec_flags_eq`); the
+repair selects rows by value, so the repaired forecast is the same function of the forecast
+(`dec_recal_perm`); the marginal functional is order-free (`dec_T_perm`); weighted averages are
+sums over rows. -/
+theorem C07_perm (sf : SF K) (fn : Option (Option Functional)) (lv : Option K)
+    (X₁ y₁ X₂ y₂ : List K) (w₁ w₂ : Option (List K)) (hsome : w₁.isSome = w₂.isSome)
+    (hperm : (fit_rows X₁ y₁ w₁).Perm (fit_rows X₂ y₂ w₂)) (r₁ r₂ : DecompRow K)
+    (h₁ : decompose sf fn lv y₁ [X₁] w₁ = .ok [r₁]) (h₂ : decompose sf fn lv y₂ [X₂] w₂ = .ok [r₂]) :
+    r₁ = r₂ :=
+  dec_decompose_perm' sf fn lv hsome hperm h₁ h₂
+
+/-- the same for a forecast matrix: corresponding columns get equal rows -/
+theorem C07_perm_matrix (sf : SF K) (fn : Option (Option Functional)) (lv : Option K)
+    (y₁ y₂ : List K) (cols₁ cols₂ : List (List K)) (w₁ w₂ : Option (List K))
+    (hsome : w₁.isSome = w₂.isSome) (rows₁ rows₂ : List (DecompRow K))
+    (h₁ : decompose sf fn lv y₁ cols₁ w₁ = .ok rows₁)
+    (h₂ : decompose sf fn lv y₂ cols₂ w₂ = .ok rows₂)
+    (i : Nat) (hi₁ : i < cols₁.length) (hi₂ : i < cols₂.length)
+    (hr₁ : i < rows₁.length) (hr₂ : i < rows₂.length)
+    (hperm : (fit_rows cols₁[i] y₁ w₁).Perm (fit_rows cols₂[i] y₂ w₂)) :
+    rows₁[i] = rows₂[i] :=
+  dec_decompose_perm' sf fn lv hsome hperm (dec_column_independent h₁ i hi₁ hr₁)
+    (dec_column_independent h₂ i hi₂ hr₂)
+
+/-- the mean functional as a special case of the order-freeness of the marginal: `np.average` -/
+theorem C07_perm_marginal (f : Functional) (lv : K) (hm : f ≠ .median)
+    (X₁ y₁ X₂ y₂ : List K) (w₁ w₂ : Option (List K)) (tx ty tx' ty' : List K)
+    (hf₁ : isoFit (some f) lv true X₁ y₁ w₁ = .ok (tx, ty))
+    (hf₂ : isoFit (some f) lv true X₂ y₂ w₂ = .ok (tx', ty'))
+    (hperm : (fit_rows X₁ y₁ w₁).Perm (fit_rows X₂ y₂ w₂)) (m₁ m₂ : K)
+    (h₁ : functionalVal f lv y₁ w₁ = .ok m₁) (h₂ : functionalVal f lv y₂ w₂ = .ok m₂) : m₁ = m₂ :=
+  dec_functionalVal_perm hm hf₁ hf₂ hperm h₁ h₂
+
+/-! ## 3. Strictly increasing transformations of the forecasts -/
+
+/-- **Discrimination and uncertainty do not change when the forecasts are replaced by a strictly
+increasing transformation of themselves** — every score object, functional, weights; domain repair
+included.  The recalibrated forecasts are literally the same list (`dec_recal_relabel`): the sort
+order of the rows, hence the isotonic fit, is unchanged, and the prediction function is only
+evaluated at training points. -/
+theorem C07_monotone_relabel (sf : SF K) (fn : Option (Option Functional)) (lv : Option K)
+    (φ : K → K) (hφ : StrictMono φ) (X y : List K) (w : Option (List K)) (r r' : DecompRow K)
+    (h : decompose sf fn lv y [X] w = .ok [r])
+    (h' : decompose sf fn lv y [X.map φ] w = .ok [r']) : r.dsc = r'.dsc ∧ r.unc = r'.unc :=
+  dec_decompose_relabel sf fn lv hφ h h'
+
+/-- the transformed call succeeds as soon as the transformed forecasts can be scored -/
+theorem C07_monotone_relabel_ok (sf : SF K) (fn : Option (Option Functional)) (lv : Option K)
+    (φ : K → K) (hφ : StrictMono φ) (X y : List K) (w : Option (List K)) (r : DecompRow K)
+    (h : decompose sf fn lv y [X] w = .ok [r]) (s' : K)
+    (hs' : sfMean sf y (X.map φ) w = .ok s') :
+    ∃ r', decompose sf fn lv y [X.map φ] w = .ok [r'] ∧ r.dsc = r'.dsc ∧ r.unc = r'.unc := by
+  obtain ⟨r', h'⟩ := dec_decompose_relabel_ok sf fn lv hφ h hs'
+  exact ⟨r', h', dec_decompose_relabel sf fn lv hφ h h'⟩
+
+/-- the recalibrated forecasts themselves are unchanged -/
+theorem C07_recal_relabel (f : Functional) (lv : K) (φ : K → K) (hφ : StrictMono φ)
+    (X y : List K) (w : Option (List K)) (tx ty tx' ty' : List K)
+    (h : isoFit (some f) lv true X y w = .ok (tx, ty))
+    (h' : isoFit (some f) lv true (X.map φ) y w = .ok (tx', ty')) :
+    (X.map φ).map (interp tx' ty') = X.map (interp tx ty) :=
+  dec_recal_relabel hφ h h'
+
+/-- matrix form -/
+theorem C07_monotone_relabel_matrix (sf : SF K) (fn : Option (Option Functional)) (lv : Option K)
+    (φ : K → K) (hφ : StrictMono φ) (y : List K) (cols : List (List K)) (w : Option (List K))
+    (rows rows' : List (DecompRow K)) (h : decompose sf fn lv y cols w = .ok rows)
+    (h' : decompose sf fn lv y (cols.map (List.map φ)) w = .ok rows')
+    (i : Nat) (hi : i < cols.length) (hr : i < rows.length) (hr' : i < rows'.length) :
+    rows[i].dsc = rows'[i].dsc ∧ rows[i].unc = rows'[i].unc := by
+  have h1 := dec_column_independent h i hi hr
+  have h2 := dec_column_independent h' i (by simpa using hi) hr'
+  rw [List.getElem_map] at h2
+  exact dec_decompose_relabel sf fn lv hφ h1 h2
+
+/-! ## 4. Case weights: integer weights = repeated rows (mean and expectile) -/
+
+/-- **Integer case weights give the same result as physically repeating rows** — for every score
+object whose effective functional is the mean or an expectile; the domain repair (when `min y` is
+not an admissible prediction) is covered.  `dec_rep l n` repeats the `i`-th entry of `l` `n[i]`
+times; the weighted call uses `weights = n`, the replicated call no weights.  Both calls are
+assumed to succeed.
+
+Why the fits agree (`dec_fit_wequiv`): both fitted models are monotone functions of the forecast,
+each is optimal for its sample among such functions (C11), the two objectives coincide on functions
+of the forecast, and the minimiser is unique (strict convexity: `C01_unique`, `C03_unique`).  The
+repair selects rows by value and replaces them by a functional that only depends on weighted sums
+(`dec_recal_wequiv`). -/
+theorem C07_replication (sf : SF K) (fn : Option (Option Functional)) (lv : Option K)
+    (X y : List K) (n : List Nat) (f : Functional) (lv' : K)
+    (hv : dec_validate sf fn lv = .ok (f, lv')) (hme : f = .mean ∨ f = .expectile)
+    (r r' : DecompRow K)
+    (h : decompose sf fn lv y [X] (some (n.map fun k : Nat => (k : K))) = .ok [r])
+    (h' : decompose sf fn lv (dec_rep y n) [dec_rep X n] none = .ok [r']) : r = r' := by
+  obtain ⟨_, _, _, _, _, hsh, _, _⟩ := (dec_ok_iff sf fn lv y [X] _ [r]).mp h
+  obtain ⟨hc, hw, _⟩ := (dec_shape_ok y [X] _).mp hsh
+  have hn : n.length = y.length := by simpa using hw _ rfl
+  exact dec_decompose_wequiv_full sf fn lv (dec_WEquiv_rep X y n (hc X (by simp)) hn) hv hme h h'
+
+/-- the general principle behind it: **the decomposition only depends on the weighted information
+in the sample** (`dec_WEquiv`: all weighted row sums `Σ w·Φ(x, y)` agree) — permuting rows,
+splitting the weight of a row over several copies, merging identical rows by adding their
+weights. -/
+theorem C07_weight_aggregation (sf : SF K) (fn : Option (Option Functional)) (lv : Option K)
+    (X₁ y₁ X₂ y₂ : List K) (w₁ w₂ : Option (List K))
+    (heq : dec_WEquiv (fit_rows X₁ y₁ w₁) (fit_rows X₂ y₂ w₂))
+    (f : Functional) (lv' : K) (hv : dec_validate sf fn lv = .ok (f, lv'))
+    (hme : f = .mean ∨ f = .expectile)
+    (r₁ r₂ : DecompRow K) (h₁ : decompose sf fn lv y₁ [X₁] w₁ = .ok [r₁])
+    (h₂ : decompose sf fn lv y₂ [X₂] w₂ = .ok [r₂]) : r₁ = r₂ :=
+  dec_decompose_wequiv_full sf fn lv heq hv hme h₁ h₂
+
+/-- integer weights carry the same weighted information as repeated rows -/
+theorem C07_replication_is_aggregation (X y : List K) (n : List Nat) (hX : X.length = y.length)
+    (hn : n.length = y.length) :
+    dec_WEquiv (fit_rows X y (some (n.map fun k : Nat => (k : K))))
+      (fit_rows (dec_rep X n) (dec_rep y n) none) :=
+  dec_WEquiv_rep X y n hX hn
+
+/-- squared error: integer weights = repeated rows -/
+theorem C07_replication_squared_error (sf : SF K) (hk : sf.kind = .squaredError)
+    (he : sf.elem = none) (X y : List K) (n : List Nat) (r r' : DecompRow K)
+    (h : decompose sf none none y [X] (some (n.map fun k : Nat => (k : K))) = .ok [r])
+    (h' : decompose sf none none (dec_rep y n) [dec_rep X n] none = .ok [r']) : r = r' := by
+  obtain ⟨l, hv⟩ := dec_validate_sq sf hk he none (Or.inl rfl) none
+  exact C07_replication sf none none X y n .mean l hv (Or.inl rfl) r r' h h'
+
+/-! ## Non-vacuity -/
+
+section Examples
+/-- `ScoreOps` on `ℚ` for the examples (the squared error calls none of these operations) -/
+local instance c07DummyOps : ScoreOps ℚ := ⟨fun a _ => a, id, abs, fun _ => False, fun _ => inferInstance⟩
+
+/-- `C07_column_independent`: a successful matrix call with three columns -/
+example : ∃ rows, decompose (⟨.squaredError, 0, 1 / 2, none⟩ : SF ℚ) none none [0, 0, 1, 1]
+    [[-1, 1, 1, 2], [3, 3, 3, 3], [4, 3, 2, 1]] none = .ok rows :=
+  dec_decompose_sq_ok _ rfl rfl none (Or.inl rfl) none _ _ _ (by simp) (by simp) (by simp)
+    (by simp [dec_wts])
+
+/-- `C07_perm`: a genuine permutation of weighted rows (with a tie in the forecast), … -/
+example : (fit_rows [1, 1, 2] [3, 0, 1] (some [1, 5, 2]) : List (Row ℚ)).Perm
+    (fit_rows [1, 2, 1] [0, 1, 3] (some [5, 2, 1])) := by
+  show ([⟨1, 3, 1⟩] ++ [⟨1, 0, 5⟩, ⟨2, 1, 2⟩] : List (Row ℚ)).Perm
+    ([⟨1, 0, 5⟩, ⟨2, 1, 2⟩] ++ [⟨1, 3, 1⟩])
+  exact List.perm_append_comm
+
+/-- … and both arrangements are decomposed successfully -/
+example : (∃ r, decompose (⟨.squaredError, 0, 1 / 2, none⟩ : SF ℚ) none none [3, 0, 1] [[1, 1, 2]]
+      (some [1, 5, 2]) = .ok r) ∧
+    (∃ r, decompose (⟨.squaredError, 0, 1 / 2, none⟩ : SF ℚ) none none [0, 1, 3] [[1, 2, 1]]
+      (some [5, 2, 1]) = .ok r) :=
+  ⟨dec_decompose_sq_ok _ rfl rfl none (Or.inl rfl) none _ _ _ (by simp) (by simp) (by simp)
+      (by simp [dec_wts]),
+   dec_decompose_sq_ok _ rfl rfl none (Or.inl rfl) none _ _ _ (by simp) (by simp) (by simp)
+      (by simp [dec_wts])⟩
+
+/-- `C07_monotone_relabel`: a strictly increasing map, and both calls succeed -/
+example : StrictMono (fun x : ℚ => 2 * x + 1) := fun a b h => by
+  show 2 * a + 1 < 2 * b + 1
+  linarith
+
+example : (∃ r, decompose (⟨.squaredError, 0, 1 / 2, none⟩ : SF ℚ) none none [0, 0, 1, 1]
+      [[-1, 1, 1, 2]] none = .ok r) ∧
+    (∃ r, decompose (⟨.squaredError, 0, 1 / 2, none⟩ : SF ℚ) none none [0, 0, 1, 1]
+      [([-1, 1, 1, 2] : List ℚ).map (fun x => 2 * x + 1)] none = .ok r) :=
+  ⟨dec_decompose_sq_ok _ rfl rfl none (Or.inl rfl) none _ _ _ (by simp) (by simp) (by simp)
+      (by simp [dec_wts]),
+   dec_decompose_sq_ok _ rfl rfl none (Or.inl rfl) none _ _ _ (by simp) (by simp) (by simp)
+      (by simp [dec_wts])⟩
+
+/-- `C07_replication`: integer weights `[1, 3, 2]` against six physical rows -/
+example : dec_rep ([5, 7, 6] : List ℚ) [1, 3, 2] = [5, 7, 7, 7, 6, 6] := by
+  simp [dec_rep, List.replicate]
+
+example : (∃ r, decompose (⟨.squaredError, 0, 1 / 2, none⟩ : SF ℚ) none none [3, 0, 1] [[1, 1, 2]]
+      (some (([1, 3, 2] : List Nat).map fun k : Nat => (k : ℚ))) = .ok r) ∧
+    (∃ r, decompose (⟨.squaredError, 0, 1 / 2, none⟩ : SF ℚ) none none
+      (dec_rep [3, 0, 1] [1, 3, 2]) [dec_rep [1, 1, 2] [1, 3, 2]] none = .ok r) :=
+  ⟨dec_decompose_sq_ok _ rfl rfl none (Or.inl rfl) none _ _ _ (by simp) (by simp) (by simp)
+      (by simp [dec_wts]),
+   dec_decompose_sq_ok _ rfl rfl none (Or.inl rfl) none _ _ _ (by simp [dec_rep])
+      (by simp [dec_rep]) (by simp) (by simp [dec_wts])⟩
+
+end Examples
+
 end MD.Props
+
+/-
+Sanity checks (`#eval`, not part of the proofs).  At `Float`, Poisson deviance with zero counts, so
+that the domain repair is exercised (`(mcb, dsc, unc, score)`):
+  decompose po none none [0,1,2,0,3] [[1,2,3,0.5,2.5]] none   = ok [(0.337439, 0.955565, 1.435281, 0.817155)]
+  decompose po none none [3,0,2,1,0] [[2.5,0.5,3,2,1]] none   = ok [(0.337439, 0.955565, 1.435281, 0.817155)]   -- rows permuted
+  decompose po none none [0,1,2,0,3] [[1,2,3,0.5,2.5]] (some [2,1,3,1,2])
+                                                              = ok [(0.408170, 0.964202, 1.326697, 0.770665)]
+  decompose po none none [0,0,1,2,2,2,0,3,3] [[1,1,2,3,3,3,0.5,2.5,2.5]] none
+                                                              = ok [(0.408170, 0.964202, 1.326697, 0.770665)]   -- rows repeated
+At `Rat`, squared error:
+  decompose sq none none [0,0,1,1] [[-1,1,1,2]] none          = ok [(5/8, 1/8, 1/4, 3/4)]
+  decompose sq none none [0,0,1,1] [[-1,3,3,5]] none          = ok [(59/8, 1/8, 1/4, 15/2)]   -- x ↦ 2x+1
+  decompose pinball(1/2) with functional none / median / median + level 7 / quantile + level 1/2
+      on [0,0,1,1,5], [[-1,1,1,2,0]]                          = ok [(3/10, 1/10, 3/5, 4/5)]  (all four)
+-/
+
+/-
+`#print axioms` (observed with `lake env lean`):
+'MD.Props.C07_column_independent' depends on axioms: [propext, Classical.choice, Quot.sound]
+'MD.Props.C07_column_failure' depends on axioms: [propext, Classical.choice, Quot.sound]
+'MD.Props.C07_alias_median' depends on axioms: [propext, Classical.choice, Quot.sound]
+'MD.Props.C07_alias_explicit' depends on axioms: [propext, Quot.sound]
+'MD.Props.C07_alias_explicit_functional' depends on axioms: [propext, Quot.sound]
+'MD.Props.C07_mean_level_irrelevant' depends on axioms: [propext, Quot.sound]
+'MD.Props.C07_perm' depends on axioms: [propext, Classical.choice, Quot.sound]
+'MD.Props.C07_perm_matrix' depends on axioms: [propext, Classical.choice, Quot.sound]
+'MD.Props.C07_perm_marginal' depends on axioms: [propext, Classical.choice, Quot.sound]
+'MD.Props.C07_monotone_relabel' depends on axioms: [propext, Classical.choice, Quot.sound]
+'MD.Props.C07_monotone_relabel_ok' depends on axioms: [propext, Classical.choice, Quot.sound]
+'MD.Props.C07_recal_relabel' depends on axioms: [propext, Classical.choice, Quot.sound]
+'MD.Props.C07_monotone_relabel_matrix' depends on axioms: [propext, Classical.choice, Quot.sound]
+'MD.Props.C07_replication' depends on axioms: [propext, Classical.choice, Quot.sound]
+'MD.Props.C07_weight_aggregation' depends on axioms: [propext, Classical.choice, Quot.sound]
+'MD.Props.C07_replication_is_aggregation' depends on axioms: [propext, Classical.choice, Quot.sound]
+'MD.Props.C07_replication_squared_error' depends on axioms: [propext, Classical.choice, Quot.sound]
+-/
